@@ -40,21 +40,11 @@ Definition as_rotvec (q : quatR) : vecR :=
 (* __pow__ for an integer n outside the shortcuts: from_rotvec(n * rotvec) with the parity flag *)
 Definition rpow_code (n : Z) (rv : vecR) (f : bool) : rotR := (from_rotvec (vscal RRing (IZR n) rv), pow_flag n f).
 
-(* _make_elementary_quat: component `axis` (0,1,2 = position in the stored quaternion) = sin(angle/2), w = cos(angle/2) *)
-Definition elementary (axis : nat) (angle : R) : quatR :=
-  set_comp RRing axis (sin (angle / 2)) (0, 0, 0, cos (angle / 2)).
-(* from_euler: intrinsic composes on the right, extrinsic on the left, in the order of the sequence *)
-Fixpoint from_euler_acc (intrinsic : bool) (acc : quatR) (axes : list nat) (angles : list R) : quatR :=
-  match axes, angles with
-  | a :: axs, t :: ts =>
-      from_euler_acc intrinsic (if intrinsic then qmul RRing acc (elementary a t) else qmul RRing (elementary a t) acc) axs ts
-  | _, _ => acc
-  end.
+(* _make_elementary_quat / from_euler with s = sin(angle/2), c = cos(angle/2) (see elementary_sc / from_euler_sc) *)
+Definition half_sc (t : R) : R * R := (sin (t / 2), cos (t / 2)).
+Definition elementary (axis : nat) (angle : R) : quatR := elementary_sc RRing axis (sin (angle / 2)) (cos (angle / 2)).
 Definition from_euler (intrinsic : bool) (axes : list nat) (angles : list R) : quatR :=
-  match axes, angles with
-  | a :: axs, t :: ts => from_euler_acc intrinsic (elementary a t) axs ts
-  | _, _ => qone RRing
-  end.
+  from_euler_sc RRing intrinsic axes (map half_sc angles).
 Definition deg2rad (x : R) : R := x * PI / 180.
 (* the elementary rotation matrices about the stored axes 0,1,2 *)
 Definition elem_matrix (axis : nat) (t : R) : matR :=
@@ -63,3 +53,10 @@ Definition elem_matrix (axis : nat) (t : R) : matR :=
   | 1%nat => ((cos t, 0, sin t), (0, 1, 0), (- sin t, 0, cos t))
   | _ => ((cos t, - sin t, 0), (sin t, cos t, 0), (0, 0, 1))
   end.
+
+(* _matrix_to_quaternion: candidate row i divided by 2 sqrt(pivot_i) (relu is the identity on the non-negative pivots of a rotation
+   matrix; the code takes i = argmax of the pivots) *)
+Definition nth_pivot (i : nat) (m : matR) : R :=
+  let '(p0, p1, p2, p3) := m2q_pivots RRing m in match i with 0%nat => p0 | 1%nat => p1 | 2%nat => p2 | _ => p3 end.
+Definition matrix_to_quat (i : nat) (m : matR) : quatR := qscal RRing (/ (2 * sqrt (nth_pivot i m))) (m2q_candidate RRing i m).
+Definition nth_comp (i : nat) (q : quatR) : R := match i with 0%nat => q0 q | 1%nat => q1 q | 2%nat => q2 q | _ => q3 q end.
